@@ -133,7 +133,10 @@ def run_broker(c):
                         kw['commission'] = op[4]
                     if cfg.get('dup_ids'):
                         kw['order_id'] = 'SAME-ID'          # caller-supplied, repeated order ids
-                    o = Order(broker.current_dt, op[2], op[3], **kw)
+                    # whole-number quantities as Python ints, numpy integers or floats (all accepted today, all mean the same)
+                    qk = cfg.get('qty_kind', 'int')
+                    qty = np.int64(op[3]) if qk == 'np' else (float(op[3]) if qk == 'float' else op[3])
+                    o = Order(broker.current_dt, op[2], qty, **kw)
                     broker.submit_order(op[1], o)
                     oid[o.order_id] = nxt[0]
                     by_obj[id(o)] = nxt[0]
